@@ -45,6 +45,9 @@ C03Cases == {[installed |-> i, class |-> c] : i \in BOOLEAN, c \in {"unknown-as-
                                                                       "peeras", "aspath-regex", "attr-match"}}
 C15Cases == {q \in UNION {[1..k -> EvalClass \ {"malformed-annotation"}] : k \in 2..3} :
                (\E i \in 1..Len(q) : q[i] # "ok") /\ (\E i \in 1..Len(q) : q[i] = "ok")}
+            (* ... and sets none of whose members can be evaluated: the run has other work (an orphan to delete) and *)
+            (* does not abort                                                                                        *)
+            \cup UNION {[1..k -> EvalClass \ {"malformed-annotation", "ok"}] : k \in 1..2}
 
 (* C16: shape of a policy-statement of the running configuration *)
 Active == {"absent", "true", "false"}
